@@ -290,7 +290,7 @@ func init() {
 			return e.ts.Bin(OpSub, timeExt(e, a[0]), timeExt(e, a[1]))
 		},
 		"(time.Time).Add": func(e *Exec, fn *ssa.Function, a []Value) Value {
-			return mkTime(e, e.ts.Bin(OpAdd, timeExt(e, a[0]), a[1].(*Term)))
+			return mkTimeLoc(e, e.ts.Bin(OpAdd, timeExt(e, a[0]), a[1].(*Term)), timeLoc(e, a[0]))
 		},
 		"(time.Time).After": func(e *Exec, fn *ssa.Function, a []Value) Value {
 			return e.ts.Cmp(OpSlt, timeExt(e, a[1]), timeExt(e, a[0]))
@@ -305,8 +305,19 @@ func init() {
 		},
 		"(time.Time).UnixNano": func(e *Exec, fn *ssa.Function, a []Value) Value { return timeExt(e, a[0]) },
 		"(time.Time).IsZero":   func(e *Exec, fn *ssa.Function, a []Value) Value { return e.ts.Eq(timeExt(e, a[0]), e.ts.Const(64, 0)) },
-		"(time.Time).UTC":      func(e *Exec, fn *ssa.Function, a []Value) Value { return a[0] },
-		"(time.Time).Local":    func(e *Exec, fn *ssa.Function, a []Value) Value { return a[0] },
+		"(time.Time).UTC":      func(e *Exec, fn *ssa.Function, a []Value) Value { return mkTime(e, timeExt(e, a[0])) },
+		"(time.Time).Local":    func(e *Exec, fn *ssa.Function, a []Value) Value { return mkLocalTime(e, timeExt(e, a[0])) },
+		"(time.Time).AppendFormat": func(e *Exec, fn *ssa.Function, a []Value) Value {
+			str := inTimeFormat(e, fn, []Value{a[0], a[2]})
+			return e.doAppend(a[1], str, fn.Signature.Params().At(0).Type())
+		},
+		zzPath + ".LocalZone": func(e *Exec, fn *ssa.Function, a []Value) Value {
+			t := e.ts.Var("tz.offset", 64)
+			e.nondets = append(e.nondets, nondetRec{Name: "tz.offset", T: t})
+			e.envState["tzoffset"] = t
+			e.assume(e.ts.And(e.ts.Cmp(OpSle, e.ts.Const(64, uint64(0xffffffffffffffff-12*3600+1)), t), e.ts.Cmp(OpSle, t, e.ts.Const(64, 14*3600))))
+			return nil
+		},
 		"(time.Time).Round":    func(e *Exec, fn *ssa.Function, a []Value) Value { return a[0] },
 		"(time.Time).Truncate": func(e *Exec, fn *ssa.Function, a []Value) Value { return a[0] },
 		"(time.Time).Format":   inTimeFormat,
@@ -699,6 +710,46 @@ func mkTime(e *Exec, ext *Term) Value {
 	return &StructV{F: []Value{e.ts.Const(64, 0), ext, NilPtr{}}}
 }
 
+// Zones: loc == nil is UTC. After zz.LocalZone() the process's local zone has an arbitrary
+// fixed offset ("tz.offset" seconds) and time.Now / time.Unix / Local() return times in it
+// (loc == localLoc); Format renders such a time shifted by the offset, as the real package does.
+var localLoc = &OpaqueV{Note: "loc:local"}
+
+func mkTimeLoc(e *Exec, ext *Term, loc Value) Value {
+	return &StructV{F: []Value{e.ts.Const(64, 0), ext, loc}}
+}
+
+func timeLoc(e *Exec, v Value) Value {
+	switch s := v.(type) {
+	case *StructV:
+		return s.F[2]
+	case *Cell:
+		if s != nil && s.Fields != nil {
+			return s.Fields[2].V
+		}
+	}
+	return NilPtr{}
+}
+
+func isLocalLoc(v Value) bool { o, ok := v.(*OpaqueV); return ok && o == localLoc }
+
+// mkLocalTime: a time as returned by time.Now/time.Unix: in the local zone.
+func mkLocalTime(e *Exec, ext *Term) Value {
+	if _, ok := e.envState["tzoffset"].(*Term); ok {
+		return mkTimeLoc(e, ext, localLoc)
+	}
+	return mkTime(e, ext)
+}
+
+// wallExt: the instant whose UTC rendering equals the zone rendering of v.
+func wallExt(e *Exec, v Value) *Term {
+	ext := timeExt(e, v)
+	if off, ok := e.envState["tzoffset"].(*Term); ok && isLocalLoc(timeLoc(e, v)) {
+		return e.ts.Bin(OpAdd, ext, e.ts.Bin(OpMul, off, e.ts.Const(64, 1000000000)))
+	}
+	return ext
+}
+
 func timeExt(e *Exec, v Value) *Term {
 	switch s := v.(type) {
 	case *StructV:
@@ -734,13 +785,13 @@ func inTimeNow(e *Exec, fn *ssa.Function, a []Value) Value {
 		e.envState["clock"] = t
 		cur = t
 	}
-	return mkTime(e, cur)
+	return mkLocalTime(e, cur)
 }
 
 func inTimeUnix(e *Exec, fn *ssa.Function, a []Value) Value {
 	ts := e.ts
 	sec, nsec := a[0].(*Term), a[1].(*Term)
-	return mkTime(e, ts.Bin(OpAdd, ts.Bin(OpMul, sec, ts.Const(64, 1000000000)), nsec))
+	return mkLocalTime(e, ts.Bin(OpAdd, ts.Bin(OpMul, sec, ts.Const(64, 1000000000)), nsec))
 }
 
 func (e *Exec) deepDescribe(v Value, depth int) string {
@@ -799,7 +850,7 @@ func (e *Exec) deepDescribe(v Value, depth int) string {
 const nameLayout = "20060102-150405.000000000"
 
 func inTimeFormat(e *Exec, fn *ssa.Function, a []Value) Value {
-	ext := timeExt(e, a[0])
+	ext := wallExt(e, a[0])
 	layout := e.concStr(a[1], "time layout")
 	if ext.IsConst() {
 		return &StrV{S: time.Unix(0, ext.SInt()).UTC().Format(layout)}
